@@ -18,7 +18,10 @@ RULE = ("checksum-valid TLEs over the printable range of every field (mean motio
         "e in {0, 1e-7, 0.9999990..0.9999999}, i in {0, 180}), times within +-60 days; correspondence: the model's outcome class "
         "(and every intermediate when it answers) vs the implementation; oracle: the statement's decision table with "
         "independently computed period/perigee (Spec.Str3 on Float) and decay indicators, and finiteness of every answer; "
-        "distinct = (tle, minutes)")
+        "time ARRAYS mixing decayed and answered instants of one element set (decaying families; instants classified by the "
+        "published model's state on a dense grid - r_k < 1, a < 1, e < -1e-3 - or one by one when no model driver is available): "
+        "the decayed instant in every position of an array of 1-4 answered instants must make the call fail, an array of "
+        "answered instants must be answered, finite and equal to the one-by-one answers; distinct = (tle, minutes)")
 ASSUMPTIONS = ["cases within 1e-9 relative of a threshold (225 min, 220 km, element limits) are excluded from the oracle's "
                "class assertion (float rounding of the threshold comparison), not from the correspondence",
                "'an exception' for decay means any exception type, as the statement says"]
@@ -256,6 +259,7 @@ def oracle(ctx):
     oracle_sequences(ctx)
     if drv:
         oracle_radius_decay(ctx, drv)
+    oracle_mixed_arrays(ctx, drv)
 
 
 def _outcome(o, t_min):
@@ -342,6 +346,203 @@ def oracle_radius_decay(ctx, drv):
         ctx.bump("decay_search_found", k_, v_)
 
 
+def _minutes_to_times(o, mins):
+    return o.tle.epoch + np.array([int(round(t * 60e6)) for t in mins], dtype="int64").astype("timedelta64[us]")
+
+
+def _outcome_array(l1, l2, mins):
+    """a fresh object asked the whole time array in one call: ("answered", pos (3, n), vel (3, n)) or (exception name, None, None)"""
+    from pyorbital import orbital
+    with warnings.catch_warnings():
+        warnings.simplefilter("ignore")
+        with np.errstate(all="ignore"):
+            try:
+                o = orbital.Orbital("x", line1=l1, line2=l2)
+                pos, vel = o.get_position(_minutes_to_times(o, mins), normalize=False)
+                return ("answered", np.asarray(pos, dtype=float), np.asarray(vel, dtype=float))
+            except Exception as ex:  # noqa
+                return (type(ex).__name__, None, None)
+
+
+def _fresh_outcome(l1, l2, t_min):
+    from pyorbital import orbital
+    return _outcome(orbital.Orbital("x", line1=l1, line2=l2), t_min)
+
+
+ARRAY_TOL = 1e-6    # km, km/s: an answered array against the one-by-one answers
+
+
+def check_decayed_array(ctx, l1, l2, mins, decayed_index, why, report=True):
+    """A time array of which the instants `decayed_index` are decayed (the statement: propagation fails with an exception when
+    the modelled orbit has decayed): the call must fail.  Returns 1 if it is answered."""
+    ctx.count("eval_oracle_mixed_array")
+    got = _outcome_array(l1, l2, mins)
+    if got[0] != "answered":
+        return 0
+    if report:
+        k = decayed_index[0]
+        obs = {"position_km": np.asarray(got[1]).reshape(3, -1)[:, k].tolist() if np.size(got[1]) >= 3 * len(mins) else np.asarray(got[1]).tolist(),
+               "radii_km": np.sqrt((np.asarray(got[1]).reshape(3, -1) ** 2).sum(0)).tolist()}
+        ctx.violation("decayed_answered_in_array", {"line1": l1, "line2": l2, "minutes_array": [float(t) for t in mins],
+                                                     "decayed_index": [int(i) for i in decayed_index], "why": why},
+                      obs, "an exception: the modelled orbit has decayed at entry %s of the time array (%s)" % (list(decayed_index), why),
+                      site="_Keplerians.calculate")
+    return 1
+
+
+def check_alive_array(ctx, l1, l2, mins, report=True):
+    """A time array of instants each of which is answered on its own: answered, finite, and entry by entry the one-by-one
+    answer.  Returns 1 on a violation."""
+    ctx.count("eval_oracle_alive_array")
+    singles = [_fresh_outcome(l1, l2, t) for t in mins]
+    if any(s_[0] != "answered" for s_ in singles):
+        return 0            # not an all-answered array (the scalar clauses judge the single instants)
+    got = _outcome_array(l1, l2, mins)
+    case = {"line1": l1, "line2": l2, "minutes_array": [float(t) for t in mins], "decayed_index": None}
+    if got[0] != "answered":
+        if report:
+            ctx.violation("answered_instants_refused_as_array", case, got[0], "a finite answer: every instant of the array is answered on its own",
+                          site="Orbital.get_position")
+        return 1
+    pos, vel = got[1], got[2]
+    if pos.shape != (3, len(mins)) or vel.shape != (3, len(mins)):
+        if report:
+            ctx.violation("array_answer_shape", case, [list(pos.shape), list(vel.shape)], "one position and velocity per instant: (3, %d)" % len(mins),
+                          site="Orbital.get_position")
+        return 1
+    if not (np.all(np.isfinite(pos)) and np.all(np.isfinite(vel))):
+        if report:
+            ctx.violation("nonfinite_answer", case, [pos.tolist(), vel.tolist()], "finite position and velocity", site="Orbital.get_position")
+        return 1
+    for k, s_ in enumerate(singles):
+        one = np.array(s_[1], dtype=float)
+        arr = np.concatenate([pos[:, k], vel[:, k]])
+        if not np.allclose(arr, one, rtol=0, atol=ARRAY_TOL):
+            if report:
+                ctx.violation("array_differs_from_single", dict(case, index=k), arr.tolist(), "the answer for that instant alone: %r" % one.tolist(),
+                              site="Orbital.get_position")
+            return 1
+    return 0
+
+
+def _classify_instants(ctx, drv, l1, l2, mins):
+    """per instant "decayed" / "alive" / None (unclear, or the set is refused for another reason) and a description; by the
+    published model's state (margins as in the scalar clauses) when a model driver is available, else one by one on the
+    implementation with scalar times."""
+    from pyorbital import orbital, tlefile
+    try:
+        tle = tlefile.Tle("x", line1=l1, line2=l2)
+        with warnings.catch_warnings():
+            warnings.simplefilter("ignore")
+            with np.errstate(all="ignore"):
+                o = orbital.Orbital("x", line1=l1, line2=l2)
+    except Exception:  # noqa
+        return None
+    if drv:
+        out = drv.run(["str3 " + " ".join(lib.f2h(x) for x in sgp4io.tle_nums(tle)) + "".join(" " + lib.f2h(t) for t in mins)])[0]
+        parts = out.split(" | ")
+        head = parts[0].split()
+        try:
+            perigee, period = lib.h2f(head[0]), lib.h2f(head[1])
+        except Exception:  # noqa
+            return None
+        if not (math.isfinite(perigee) and math.isfinite(period)) or perigee < 220.0 + 1e-6 or period >= 225.0 - 1e-6 or len(parts) != len(mins) + 1:
+            return None
+        res = []
+        for st in parts[1:]:
+            try:
+                a_, e0_, elsq_, rk_ = [lib.h2f(x) for x in st.split()[8:12]]
+            except Exception:  # noqa
+                res.append((None, ""))
+                continue
+            if not all(math.isfinite(x) for x in (a_, e0_, elsq_, rk_)):
+                res.append((None, ""))
+                continue
+            descr = "a=%.6f e=%.6f e_L^2=%.6f r_k=%.6f earth radii" % (a_, e0_, elsq_, rk_)
+            if a_ < 1 - 1e-6:
+                res.append(("decayed", "a<1: " + descr))
+            elif e0_ < -1e-3 - 1e-7:
+                res.append(("decayed", "e<-1e-3: " + descr))
+            elif elsq_ >= 1 + 1e-6:
+                res.append(("decayed", "eL2>=1: " + descr))
+            elif rk_ < 1 - 1e-6 and a_ >= 1 + 1e-6 and e0_ >= -1e-3 + 1e-7 and elsq_ < 1 - 1e-6:
+                res.append(("decayed", "rk<1: " + descr))
+            elif a_ > 1 + 1e-6 and rk_ > 1 + 1e-6 and elsq_ < 1 - 1e-6 and e0_ > -1e-3 + 1e-9:
+                res.append(("alive", descr))
+            else:
+                res.append((None, ""))
+        return res
+    res = []
+    for t in mins:
+        g = _outcome(o, t)
+        if g[0] == "NotImplementedError":
+            return None
+        res.append(("alive", "answered alone") if g[0] == "answered" else ("decayed", "refused alone: " + g[0]))
+    return res
+
+
+def oracle_mixed_arrays(ctx, drv):
+    """Time arrays of which only SOME instants are decayed.  Element sets of the decaying families; instants on a grid dense
+    enough to meet the narrow perigee windows in which only the radius is below one earth radius."""
+    r = ctx.rng
+    n_sets = ctx.size(36, 700)
+    for i in range(n_sets):
+        fam = ("rk", "e", "drag")[i % 3]
+        if fam == "rk":
+            ov = {"mmotion": "%11.8f" % r.uniform(14.0, 15.4), "ecc": "%07d" % r.randrange(200000, 900000),
+                  "incl": "%8.4f" % r.uniform(5, 175), "bstar": " " + "%05d" % r.randrange(10000, 99999) + "-" + r.choice("12")}
+        elif fam == "e":
+            ov = {"mmotion": "%11.8f" % r.uniform(15.6, 16.15), "ecc": "%07d" % r.randrange(100, 9000),
+                  "incl": "%8.4f" % r.choice([r.uniform(0.5, 40), r.uniform(140, 179.5)]),
+                  "bstar": " " + "%05d" % r.randrange(10000, 99999) + "-" + r.choice("233")}
+        else:
+            ov = {"bstar": " " + "%05d" % r.randrange(20000, 99999) + "-" + r.choice("01"),
+                  "mmotion": "%11.8f" % r.uniform(15.0, 16.2), "ecc": "%07d" % r.randrange(1000, 100000)}
+        _, l1, l2 = tlegen.random_tle(r, "near", overrides=ov)
+        if drv:
+            grid = [k * 7.0 + r.uniform(0, 7) for k in range(0, 6000 if fam != "drag" else 1500)]
+        else:
+            grid = [k * 37.0 + r.uniform(0, 37) for k in range(0, 1200)]
+        cls = _classify_instants(ctx, drv, l1, l2, grid)
+        if cls is None:
+            ctx.bump("mixed_array_sets", fam + ":refused-otherwise")
+            continue
+        dec = [j for j, c in enumerate(cls) if c[0] == "decayed"]
+        alive = [j for j, c in enumerate(cls) if c[0] == "alive"]
+        if not dec or not alive:
+            ctx.bump("mixed_array_sets", fam + (":no-decayed-instant" if not dec else ":no-answered-instant"))
+            continue
+        ctx.bump("mixed_array_sets", fam + ":mixed")
+        ctx.distinct(("mixed", l1, l2))
+        # one decayed instant of every kind met (rk<1, a<1, e<-1e-3, eL2>=1), preferring the earliest ones (neighbours still alive)
+        by_kind = {}
+        for j in dec:
+            by_kind.setdefault(cls[j][1].split(":")[0], []).append(j)
+        for kind, js in sorted(by_kind.items()):
+            for jd in [js[0], r.choice(js)][:1 + (len(js) > 1)]:
+                ctx.bump("mixed_array_decay_kind", kind)
+                k = r.randrange(1, 5)
+                if r.random() < 0.6:        # answered instants around the decayed one (a span of a few revolutions)
+                    near_ = sorted(alive, key=lambda j: abs(j - jd))[:12]
+                    chosen = r.sample(near_, min(k, len(near_)))
+                else:
+                    chosen = r.sample(alive, min(k, len(alive)))
+                if r.random() < 0.5:
+                    chosen.sort()
+                a_mins = [grid[j] for j in chosen]
+                bad = 0
+                for p in range(len(a_mins) + 1):
+                    bad = check_decayed_array(ctx, l1, l2, a_mins[:p] + [grid[jd]] + a_mins[p:], [p], cls[jd][1])
+                    if bad:
+                        break
+                if not bad and len(js) > 1:     # two decayed instants among answered ones; only decayed instants
+                    j2 = r.choice([j for j in js if j != jd])
+                    check_decayed_array(ctx, l1, l2, [grid[jd]] + a_mins + [grid[j2]], [0, len(a_mins) + 1], cls[jd][1])
+                    check_decayed_array(ctx, l1, l2, [grid[jd], grid[j2]], [0, 1], cls[jd][1])
+                if len(a_mins) >= 2:
+                    check_alive_array(ctx, l1, l2, a_mins)
+
+
 def oracle_sequences(ctx):
     r = ctx.rng
     for _ in range(ctx.size(60, 1500)):
@@ -366,6 +567,18 @@ def replay(ctx, case):
         r = seq_outcomes(ctx, inp["line1"], inp["line2"], inp["minutes_seq"])
         print("sequence:", r)
         return 1 if r == "violated" else 0
+    if "minutes_array" in inp:
+        mins = [float(t) for t in inp["minutes_array"]]
+        print("one by one:", [_fresh_outcome(inp["line1"], inp["line2"], t)[0] for t in mins])
+        got = _outcome_array(inp["line1"], inp["line2"], mins)
+        print("as one array:", got[0], "" if got[1] is None else "radii km %r" % np.sqrt((np.asarray(got[1]).reshape(3, -1) ** 2).sum(0)).tolist())
+        if inp.get("decayed_index"):
+            # recorded: these entries are decayed instants of the modelled orbit -> the call must fail
+            bad = check_decayed_array(ctx, inp["line1"], inp["line2"], mins, inp["decayed_index"], inp.get("why", ""))
+        else:
+            bad = check_alive_array(ctx, inp["line1"], inp["line2"], mins)
+        print("array case:", "violated" if bad else "holds")
+        return 1 if bad else 0
     try:
         o = orbital.Orbital("x", line1=inp["line1"], line2=inp["line2"])
         print("built: period", o._sgdp4.period, "perigee", o._sgdp4.perigee)
